@@ -6,6 +6,7 @@ CONTRACT_MODULES = ['contracts.c_heap']
 DEDUCTIVE = [{'fid': 'odml/base.py::Sectionable.contains', 'mode': 'heap'},
              {'fid': 'odml/section.py::BaseSection.contains', 'mode': 'heap'}]
 TIMEOUT_S = 20
+TRUSTED = ['BaseObject.__eq__ is not involved; Python == on str/None as modelled by the engine']
 REPLAY = 'heap'
 ASSUMPTIONS = HEAP_ASSUMPTIONS + [
     'the Section type attribute of the objects involved is None or a str (precondition of the contains contracts)',
